@@ -119,3 +119,9 @@ Example ex_clean :
   zv_clean z = (mkzv (2, 2) [(0, 0); (2, 2)] 3 [(0, (0, 0))], Some 1) /\
   In (0, (0, 0)) (zv_readers z).
 Proof. repeat split; try reflexivity. now left. Qed.
+
+(* two dead versions at once: the greater one is returned *)
+Example ex_clean_max :
+  snd (zv_clean (zv_run [VAcquire 0; VCommit; VAcquire 1; VCommit; VAcquire 2; VCommit; VRelease 1; VRelease 2])) = Some 2 /\
+  snd (zv_clean (zv_run [VCommit; VCommit; VCommit])) = Some 2.
+Proof. split; reflexivity. Qed.
